@@ -5,7 +5,8 @@
  *   G1 = M[0,a)  G2 = M[a,L)                 the genuine message in two fragments (a = L/2)
  *   W  = the genuine message unfragmented
  *   S  = header (length 10, offset 0, fragment_length 10) with only 2 body bytes present  ("short unfragmented message")
- *   B  = header (length L, offset 0, fragment_length 131) with 131 bytes
+ *   S1 = S with the NEXT message_seq (s + 1)
+ *   B  = header (length L, offset 0, fragment_length L - 1) with L - 1 bytes
  *   Z1 = (length 100, offset 0, fragment_length 50)   Z0 = (length 100, offset 50, fragment_length 0)
  *   Z2 = (length 100, offset 1, fragment_length 50)   overlapping fragments that sum to the length
  *   H  = (length 60000, offset 0, fragment_length 50000) with 10 bytes present
@@ -14,8 +15,8 @@
 #ifndef C08_FRAG_H
 #define C08_FRAG_H
 
-enum { FD_G1 = 0, FD_G2, FD_W, FD_S, FD_B, FD_Z1, FD_Z0, FD_Z2, FD_H, FD_N };
-static const char *fdname[] = { "G1", "G2", "W", "S", "B", "Z1", "Z0", "Z2", "H" };
+enum { FD_G1 = 0, FD_G2, FD_W, FD_S, FD_B, FD_Z1, FD_Z0, FD_Z2, FD_H, FD_S1, FD_N };
+static const char *fdname[] = { "G1", "G2", "W", "S", "B", "Z1", "Z0", "Z2", "H", "S1" };
 typedef struct { int victim, n, d[4], dtls10; } fcase_t;
 
 static int f_build(int fd, const unsigned char *msg, int L, int mseq, unsigned char *out, int vmin)
@@ -30,7 +31,8 @@ static int f_build(int fd, const unsigned char *msg, int L, int mseq, unsigned c
     case FD_G2: off = L / 2; flen = L - L / 2; present = flen; src = msg + off; break;
     case FD_W: break;
     case FD_S: mlen = 10; flen = 10; present = 2; break;
-    case FD_B: flen = 131 < L ? 131 : L; present = flen; break;
+    case FD_S1: mlen = 10; flen = 10; present = 2; mseq++; break;
+    case FD_B: flen = L - 1; present = flen; break;
     case FD_Z1: mlen = 100; off = 0; flen = 50; present = 50; src = filler; break;
     case FD_Z0: mlen = 100; off = 50; flen = 0; present = 0; src = filler; break;
     case FD_Z2: mlen = 100; off = 1; flen = 50; present = 50; src = filler; break;
@@ -111,6 +113,12 @@ static void f_run_case(void *ctx, mx_result_t *r)
             break;
         }
         world_feed(&w, f->victim, dg, dl);
+        if (getenv("MXV_DEBUG"))
+        {
+            ssl_t *x = w.s[f->victim].ssl;
+            fprintf(stderr, "partF: after %s (L=%d): err_rc=%d fragLenStored=%u fragTotal=%u fragMessage=%p\n", fdname[f->d[i]], L, w.s[f->victim].err_rc,
+                (unsigned) x->fragLenStored, (unsigned) x->fragTotal, (void *) x->fragMessage);
+        }
         r->transitions++;
     }
     world_pump(&w, 30);
@@ -182,7 +190,7 @@ static void f_run_group_inner(int victim, int dtls10, int first)
         {
             if (mx_deadline_hit()) return;
             f.n = 3; f.d[2] = c2; f_fork(&f);
-            if (thorough || (a == FD_G1 && b == FD_G2) || (a == FD_Z1 && b == FD_Z0))
+            if (thorough || (a == FD_G1 && b == FD_G2) || (a == FD_Z1 && b == FD_Z0) || (c2 == FD_S1 && b != FD_S1))
             {
                 for (d = 0; d < FD_N; d++)
                 {
